@@ -11,6 +11,8 @@ import (
 	"encoding/hex"
 	"encoding/json"
 	"fmt"
+	"math/rand"
+	"sort"
 	"strconv"
 	"strings"
 
@@ -152,7 +154,8 @@ func c12RandValue(g *Gen, depth int, allowBool bool) interface{} {
 		for i := 0; i < n; i++ {
 			k := c12RandString(g)
 			if g.Intn(2) == 0 {
-				k = []string{"a", "b", "method", "params", "", "a.b", "_to"}[g.Intn(7)]
+				k = []string{"a", "b", "method", "params", "", "a.b", "_to", "signature", "txHash", "signature", "txHash",
+					"from", "to", "version", "nid", "stepLimit", "timestamp", "value", "nonce", "dataType", "data"}[g.Intn(20)]
 			}
 			if seen[k] {
 				continue
@@ -661,6 +664,51 @@ func c12MutateValue(g *Gen, v interface{}) (interface{}, bool) {
 	return nil, false
 }
 
+
+var c12TopNames = []string{"signature", "txHash", "signature", "txHash", "from", "to", "version", "nid", "stepLimit", "timestamp", "value", "nonce", "dataType", "data"}
+
+// c12NestedField builds a data payload that contains, at depth 1..3 (through dicts and
+// lists), a key named like a top-level transaction field, and the same payload with exactly
+// that nested value changed.
+func c12NestedField(g *Gen) (a, b interface{}, key string) {
+	key = c12TopNames[g.Intn(len(c12TopNames))]
+	v1 := []interface{}{"0x" + hex.EncodeToString(g.Bytes(4)), c12RandString(g) + "s", c12Num(strconv.Itoa(g.Intn(1000)))}[g.Intn(3)]
+	var v2 interface{}
+	switch x := v1.(type) {
+	case string:
+		v2 = x + "1"
+	case c12Num:
+		v2 = c12Num(string(x) + "1")
+	}
+	mk := func(v interface{}) interface{} {
+		o := c12Obj{}
+		if g.Intn(2) == 0 {
+			o = append(o, c12KV{"k", "v"})
+		}
+		o = append(o, c12KV{key, v})
+		return o
+	}
+	a, b = mk(v1), mk(v2)
+	depth := g.Intn(3)
+	seedA := g.R.Int63()
+	wrap := func(x interface{}, seed int64) interface{} {
+		// deterministic wrapping, identical for a and b
+		r := rand.New(rand.NewSource(seed))
+		for i := 0; i < depth; i++ {
+			switch r.Intn(3) {
+			case 0:
+				x = []interface{}{"p", x}
+			case 1:
+				x = c12Obj{{"params", x}, {"z", c12Num("1")}}
+			default:
+				x = c12Obj{{c12TopNames[r.Intn(len(c12TopNames))], []interface{}{x}}}
+			}
+		}
+		return x
+	}
+	return wrap(a, seedA), wrap(b, seedA), key
+}
+
 // c12EquivValue applies one of the equivalences of the serialisation format.
 func c12EquivValue(g *Gen, v interface{}) (interface{}, string, bool) {
 	switch x := v.(type) {
@@ -698,5 +746,72 @@ func c12EquivValue(g *Gen, v interface{}) (interface{}, string, bool) {
 		}
 	}
 	return nil, "", false
+}
+
+
+// c12SpecSer: the ICON serialisation written down independently of
+// service/transaction/serialize.go (used by the oracle only).
+func c12SpecSer(v interface{}) (string, bool) {
+	esc := func(s string) string {
+		r := strings.NewReplacer("\\", "\\\\", "{", "\\{", "}", "\\}", "[", "\\[", "]", "\\]", ".", "\\.")
+		return r.Replace(s)
+	}
+	switch x := v.(type) {
+	case nil:
+		return "\\0", true
+	case string:
+		return esc(x), true
+	case float64:
+		return strconv.FormatInt(int64(x), 10), true
+	case []interface{}:
+		out := ""
+		for _, e := range x {
+			f, ok := c12SpecSer(e)
+			if !ok {
+				return "", false
+			}
+			if out != "" {
+				out += "."
+			}
+			out += f
+		}
+		return "[" + out + "]", true
+	case map[string]interface{}:
+		f, ok := c12SpecDict(x, nil)
+		return "{" + f + "}", ok
+	}
+	return "", false
+}
+
+func c12SpecDict(m map[string]interface{}, skip map[string]bool) (string, bool) {
+	keys := []string{}
+	for k := range m {
+		if !skip[k] {
+			keys = append(keys, k)
+		}
+	}
+	sort.Strings(keys)
+	parts := []string{}
+	for _, k := range keys {
+		f, ok := c12SpecSer(m[k])
+		if !ok {
+			return "", false
+		}
+		ek, _ := c12SpecSer(k)
+		parts = append(parts, ek+"."+f)
+	}
+	return strings.Join(parts, "."), true
+}
+
+func c12SpecID(js []byte) ([]byte, bool) {
+	var m map[string]interface{}
+	if err := json.Unmarshal(js, &m); err != nil {
+		return nil, false
+	}
+	body, ok := c12SpecDict(m, map[string]bool{"signature": true, "txHash": true})
+	if !ok {
+		return nil, false
+	}
+	return crypto.SHA3Sum256([]byte("icx_sendTransaction." + body)), true
 }
 
